@@ -876,6 +876,37 @@ class _GetIdentifiersCallsite:
 REG['sqlparse.sql.IdentifierList.get_identifiers'] = _GetIdentifiersCallsite
 
 
+def _generator_on_shapes(q, fallback):
+    """call-site form of a read-only generator method: executed in place on a receiver with explicit children (the yields are
+    collected in order), `fallback` otherwise"""
+    class _M:
+        @staticmethod
+        def model(ex, self_val, args, kw, st):
+            if not (isinstance(self_val, Rec) and st.objs[self_val.oid].get('__shape__') is True):
+                if fallback is None:
+                    raise OutsideSubset('call of the generator %s on a node whose children are not known' % q)
+                return fallback.model(ex, self_val, args, kw, st)
+            from pyvc.models import call_repo_inline, repo_fn_node
+            saved = getattr(ex, 'on_yield_hook', None)
+            key = '__yields__%d' % len([k for k in st.ghost if str(k).startswith('__yields__')])
+            st.ghost[key] = ()
+            ex.on_yield_hook = lambda s_, v_: s_.ghost.__setitem__(key, s_.ghost.get(key, ()) + (v_,))
+            try:
+                res = call_repo_inline(ex, q, repo_fn_node(q), self_val, args, kw, st)
+            finally:
+                ex.on_yield_hook = saved
+            out = []
+            for s_, _v in res:
+                ys = s_.ghost.pop(key, ())
+                out.append((s_, ex.new_list(s_, [('el', y) for y in ys])))
+            return out
+    return _M
+
+
+_prev_sublists = REG.get('sqlparse.sql.TokenList.get_sublists')
+REG['sqlparse.sql.TokenList.get_sublists'] = _generator_on_shapes('sqlparse.sql.TokenList.get_sublists', _prev_sublists)
+
+
 def _opt_int(name):
     def mk(ex, st):
         # None or a non-negative index (the callers pass a position returned by token_next_by, or nothing)
